@@ -24,7 +24,12 @@ EXTENDS Integers, Sequences, FiniteSets, TLC
 CONSTANTS N, Policies, Layouts,   \* the configurations explored (chosen at Init, then fixed)
           Chars, Lits, PosDom, SubDom,
           OtherVals,   \* values given to the second object (it is only a source here)
-          Junk         \* cell values a freshly allocated packed buffer may show before set_size(0)
+          Junk,        \* cell values a freshly allocated packed buffer may show before set_size(0)
+          AliasMode    \* "none": no aliasing sources; "safe": those the code handles (Safe* below);
+                       \* "all": every aliasing source (refinement then fails: finding C01-alias-moved-source);
+                       \* "repaired": every aliasing source, and the member functions as proposed_fixes/C01-06 writes
+                       \*   them (assign moves the characters before set_size; insert / replace copy a source that
+                       \*   lies inside the string into a temporary first)
 
 VARIABLES cfv,   \* [policy, layout] of this behaviour
           mem,   \* mem[k] = [b |-> <<cell 0, .., cell N>>, z |-> m_size (size-field layout only)]
@@ -56,6 +61,28 @@ FillAt(m, at, n, c) == IF n <= 0 THEN m ELSE FillAt(Put(m, at, c), at + 1, n - 1
 CopyFwd(m, s, d, n) == IF n <= 0 THEN m ELSE CopyFwd(Put(Rd(m, s), d, Cell(m, s)), s + 1, d + 1, n - 1)
 \* std::copy_backward(.., sEnd, dEnd): descending
 CopyBwd(m, sEnd, dEnd, n) == IF n <= 0 THEN m ELSE CopyBwd(Put(Rd(m, sEnd - 1), dEnd - 1, Cell(m, sEnd - 1)), sEnd - 1, dEnd - 1, n - 1)
+
+\* A source of characters for assign / append / insert / replace:
+\*   [al |-> "no",  v |-> seq]     a foreign range (literal, std::string, the other object)
+\*   [al |-> "cpy", off, cnt]      cells off .. off+cnt-1 of this very buffer, read by traits_type::copy, i.e. memcpy:
+\*                                 ranges that overlap without being identical are undefined behaviour
+\*   [al |-> "mov", off, cnt]      the same cells read by std::copy on character pointers, i.e. memmove
+\* In both aliasing forms the cells are read when the copy runs, AFTER whatever the member function wrote before.
+Foreign(v)        == [al |-> "no", v |-> v, off |-> 0, cnt |-> 0]
+Cpy(off, cnt) == [al |-> "cpy", v |-> <<>>, off |-> off, cnt |-> cnt]
+Mov(off, cnt) == [al |-> "mov", v |-> <<>>, off |-> off, cnt |-> cnt]
+SLen(S)       == IF S.al = "no" THEN Len(S.v) ELSE S.cnt
+Overlap(a, b, n) == n > 0 /\ a # b /\ a < b + n /\ b < a + n
+Repaired == AliasMode = "repaired"
+\* the temporary fixed string the repaired insert / replace build from a source inside the own buffer
+Temp(m, S) == IF Repaired /\ S.al # "no" /\ S.cnt > 0 THEN Foreign([i \in 1..S.cnt |-> Cell(m, S.off + i - 1)]) ELSE S
+PutSrc(m, at, S) ==
+    IF S.al = "no" THEN PutSeq(m, at, S.v, 1)
+    ELSE LET n  == S.cnt
+             ok == S.off + n <= N + 1 /\ at + n <= N + 1
+             m1 == [m EXCEPT !.b = [i \in 1..(N + 1) |->
+                        IF i - 1 >= at /\ i - 1 < at + n /\ S.off + (i - 1 - at) <= N THEN m.b[S.off + (i - 1 - at) + 1] ELSE m.b[i]]]
+         IN [m1 EXCEPT !.x = m.x \/ ~ok \/ (S.al = "cpy" /\ Overlap(at, S.off, n))]
 
 \* ---------------------------------------------------------------- the three storage classes
 HasNul(m) == \E i \in 0..N : m.b[i + 1] = 0
@@ -119,24 +146,50 @@ Cnt(n, rest) == IF n = NPOS \/ n > rest THEN rest ELSE n       \* std::min(count
 SubOf(v, p, n) == SubSeq(v, p + 1, p + Cnt(n, Len(v) - p))
 
 ObjKinds == {"obj", "objm"}
-SrcOK(k, sk, v) == /\ sk \in ObjKinds => v = AbsStr(Other(k))
-                   /\ sk \in {"ptr", "str"} => NulFree(v)
-                   /\ sk = "ch" => Len(v) = 1
+AliasKinds == {"self", "selfp", "selfz", "selfit"}
+WithAlias(S) == S \cup (IF "obj" \in S THEN {"self"} ELSE {}) \cup (IF "ptrn" \in S THEN {"selfp"} ELSE {})
+                  \cup (IF "ptr" \in S THEN {"selfz"} ELSE {}) \cup (IF "itv" \in S THEN {"selfit"} ELSE {})
+SrcOK(k, sk, w) == /\ sk \in ObjKinds => w = AbsStr(Other(k))
+                   /\ sk \in {"ptr", "str"} => NulFree(w)
+                   /\ sk = "ch" => Len(w) = 1
+                   /\ sk = "self" => w = <<>>
+                   /\ sk \in {"selfp", "selfit"} => Len(w) = 2 /\ w[1] \in 0..SizeOf(M(k)) /\ w[2] \in 0..(SizeOf(M(k)) - w[1])
+                   /\ sk = "selfz" => Len(w) = 1 /\ w[1] \in 0..SizeOf(M(k))
+\* traits_type::length(data() + off): distance to the first NUL at or behind cell off
+CLen(m, off) == (CHOOSE j \in off..N : m.b[j + 1] = 0 /\ \A i \in off..(j - 1) : m.b[i + 1] # 0) - off
+\* how the code reads the source of kind sk: the whole string / pointer + count / C string / iterator pair
+SrcOf(k, sk, w) ==
+    CASE sk = "self"   -> Cpy(0, SizeOf(M(k)))
+      [] sk = "selfp"  -> Cpy(w[1], w[2])
+      [] sk = "selfz"  -> Cpy(w[1], CLen(M(k), w[1]))
+      [] sk = "selfit" -> Mov(w[1], w[2])
+      [] OTHER -> Foreign(w)
+\* ... and of the (str, pos, count) overloads: str.data() + pos, min(count, str.size() - pos)
+SubSrcOf(k, sk, w, p, n) ==
+    IF sk = "self" THEN Cpy(p, Cnt(n, SizeOf(M(k)) - p)) ELSE Foreign(SubOf(w, p, n))
+\* the characters the source denotes when the call starts (what L1 sees)
+Eff(k, sk, w) ==
+    CASE sk = "self" -> AbsStr(k)
+      [] sk \in {"selfp", "selfit"} -> SubSeq(AbsStr(k), w[1] + 1, w[1] + w[2])
+      [] sk = "selfz" -> SubSeq(AbsStr(k), w[1] + 1, w[1] + CLen(M(k), w[1]))
+      [] OTHER -> w
 
 \* ---------------------------------------------------------------- code transcription: primitive member functions
 \* assign(s, count) / assign(first, last) / assign(count, ch): publish the length, then write the characters
-AssignM(m, v)       == PutSeq(SetSize(m, Len(v)), 0, v, 1)
+AssignM(m, S)       == IF Repaired THEN SetSize(PutSrc(m, 0, IF S.al = "no" THEN S ELSE Mov(S.off, S.cnt)), SLen(S))   \* traits_type::move, then set_size
+                                   ELSE PutSrc(SetSize(m, SLen(S)), 0, S)
 AssignFillM(m, n, c) == FillAt(SetSize(m, n), 0, n, c)
 \* append(s, count): old_size = size(); set_size(check_add(size(), count)); copy(data() + old_size, s, count)
-AppendM(m, v)       == LET old == SizeOf(m) IN PutSeq(SetSize(m, old + Len(v)), old, v, 1)
+AppendM(m, S)       == LET old == SizeOf(m) IN PutSrc(SetSize(m, old + SLen(S)), old, S)
 AppendFillM(m, n, c) == LET old == SizeOf(m) IN FillAt(SetSize(m, old + n), old, n, c)
 \* insert(index, s, count): old_size; new_size = check_add; set_size(new_size);
 \*                          copy_backward(data()+index, data()+old_size, data()+new_size); copy(data()+index, s, count)
-InsertM(m, idx, v) ==
-    LET old == SizeOf(m)  new == old + Len(v)
+InsertM(m, idx, S0) ==
+    LET S == Temp(m, S0)
+        old == SizeOf(m)  new == old + SLen(S)
         m1 == SetSize(m, new)
         m2 == CopyBwd(m1, old, new, old - idx)
-    IN PutSeq(m2, idx, v, 1)
+    IN PutSrc(m2, idx, S)
 InsertFillM(m, idx, n, c) ==
     LET old == SizeOf(m)  new == old + n
         m1 == SetSize(m, new)
@@ -149,11 +202,11 @@ EraseM(m, idx, n) ==
         m1 == CopyFwd(m, idx + ec, idx, sz - idx - ec)
     IN AdjustSize(m1, 0 - ec)
 \* replace(pos, count, cstr, count2): three branches, the new length is published last
-ReplaceM(m, p, n, v) ==
-    LET sz == SizeOf(m)  ec == Cnt(n, sz - p)  c2 == Len(v)  new == sz - ec + c2 IN
-    IF ec > c2 THEN SetSize(CopyFwd(PutSeq(m, p, v, 1), p + ec, p + c2, sz - p - ec), new)
-    ELSE IF ec < c2 THEN SetSize(PutSeq(CopyBwd(m, sz, new, sz - p - ec), p, v, 1), new)
-    ELSE PutSeq(m, p, v, 1)
+ReplaceM(m, p, n, S0) ==
+    LET S == Temp(m, S0)  sz == SizeOf(m)  ec == Cnt(n, sz - p)  c2 == SLen(S)  new == sz - ec + c2 IN
+    IF ec > c2 THEN SetSize(CopyFwd(PutSrc(m, p, S), p + ec, p + c2, sz - p - ec), new)
+    ELSE IF ec < c2 THEN SetSize(PutSrc(CopyBwd(m, sz, new, sz - p - ec), p, S), new)
+    ELSE PutSrc(m, p, S)
 ReplaceFillM(m, p, n, c2, c) ==
     LET sz == SizeOf(m)  ec == Cnt(n, sz - p)  new == sz - ec + c2 IN
     IF ec > c2 THEN SetSize(CopyFwd(FillAt(m, p, c2, c), p + ec, p + c2, sz - p - ec), new)
@@ -172,12 +225,12 @@ CtorFill(k, j, n, ch) ==
 CtorSub(k, j, sk, v, p, n) ==
     /\ sk \in {"obj", "str"} /\ SrcOK(k, sk, v)
     /\ LET sub == SubOf(v, p, Or(n, NPOS)) IN
-       Checked("CtorSub", k, [sk |-> sk, src |-> v, pos |-> p, n |-> n], Bad(p, Len(v)), Len(sub), sub, AssignM(Fresh(j), sub), Void)
+       Checked("CtorSub", k, [sk |-> sk, src |-> v, pos |-> p, n |-> n], Bad(p, Len(v)), Len(sub), sub, AssignM(Fresh(j), Foreign(sub)), Void)
 CtorSeq(k, j, sk, v) ==
     /\ sk \in {"ptrn", "ptr", "il", "itv", "itl", "str", "obj", "objm"} /\ SrcOK(k, sk, v)
     /\ IF sk \in ObjKinds                              \* defaulted copy / move constructor: the whole storage is copied
          THEN Commit("CtorSeq", k, [sk |-> sk, src |-> v], M(Other(k)), Void)
-         ELSE Checked("CtorSeq", k, [sk |-> sk, src |-> v], FALSE, Len(v), v, AssignM(Fresh(j), v), Void)
+         ELSE Checked("CtorSeq", k, [sk |-> sk, src |-> v], FALSE, Len(v), v, AssignM(Fresh(j), Foreign(v)), Void)
 Overlay(k, cells) ==
     /\ Layout = "strlen" /\ Len(cells) = N + 1 /\ \E i \in 1..(N + 1) : cells[i] = 0
     /\ Commit("Overlay", k, [cells |-> cells], [b |-> cells, z |-> 0, x |-> FALSE], Void)
@@ -185,16 +238,20 @@ Overlay(k, cells) ==
 AssignFill(k, ov, n, ch) ==
     /\ ov \in {"assign", "opch"} /\ (ov = "opch" => n = 1)
     /\ Checked("AssignFill", k, [ov |-> ov, n |-> n, ch |-> ch], FALSE, n, F(n, ch), AssignFillM(M(k), n, ch), Self)
-AssignSub(k, sk, v, p, n) ==
-    /\ sk \in {"obj", "str"} /\ SrcOK(k, sk, v)
-    /\ LET sub == SubOf(v, p, Or(n, NPOS)) IN
-       Checked("AssignSub", k, [sk |-> sk, src |-> v, pos |-> p, n |-> n], Bad(p, Len(v)), Len(sub), sub, AssignM(M(k), sub), Self)
-AssignSeq(k, ov, sk, v) ==
-    /\ ov \in {"assign", "op"} /\ SrcOK(k, sk, v)
-    /\ sk \in (IF ov = "assign" THEN {"ptrn", "ptr", "il", "itv", "itl", "str", "obj", "objm"} ELSE {"ptr", "il", "str", "obj", "objm"})
-    /\ IF sk \in ObjKinds /\ ov = "op"                 \* defaulted copy / move assignment: whole storage
-         THEN Commit("AssignSeq", k, [ov |-> ov, sk |-> sk, src |-> v], M(Other(k)), Self)
-         ELSE Checked("AssignSeq", k, [ov |-> ov, sk |-> sk, src |-> v], FALSE, Len(v), v, AssignM(M(k), v), Self)
+AssignSub(k, sk, w, p, n) ==
+    /\ sk \in WithAlias({"obj", "str"}) /\ SrcOK(k, sk, w)
+    /\ LET v == Eff(k, sk, w)  sub == SubOf(v, p, Or(n, NPOS)) IN
+       Checked("AssignSub", k, [sk |-> sk, src |-> w, pos |-> p, n |-> n], Bad(p, Len(v)), Len(sub), sub,
+               AssignM(M(k), SubSrcOf(k, sk, w, p, Or(n, NPOS))), Self)
+AssignSeq(k, ov, sk, w) ==
+    /\ ov \in {"assign", "op"} /\ SrcOK(k, sk, w)
+    /\ sk \in WithAlias(IF ov = "assign" THEN {"ptrn", "ptr", "il", "itv", "itl", "str", "obj", "objm"} ELSE {"ptr", "il", "str", "obj", "objm"})
+    /\ LET v == Eff(k, sk, w)  a == [ov |-> ov, sk |-> sk, src |-> w] IN
+       IF sk \in ObjKinds /\ ov = "op"                 \* defaulted copy / move assignment: whole storage
+         THEN Commit("AssignSeq", k, a, M(Other(k)), Self)
+       ELSE IF sk = "self"                             \* assign(const self_type&): if (this != &rhs); s = s: the storage onto itself
+         THEN Commit("AssignSeq", k, a, M(k), Self)
+         ELSE Checked("AssignSeq", k, a, FALSE, Len(v), v, AssignM(M(k), SrcOf(k, sk, w)), Self)
 
 At(k, c, i) ==
     LET m == M(k) IN
@@ -220,14 +277,15 @@ Resize2(k, n, ch) ==
 \* one-argument resize(n) is resize(n, ' '): transcribed as written; where it grows the string it is the open finding
 \* "pads with ' ' instead of CharT()" and is not part of the next-state relation
 Resize1(k, n) ==
-    /\ n # NPOS => n <= SizeOf(M(k)) \/ n > N
-    /\ Checked("Resize1", k, [n |-> n], FALSE, IF n = NPOS THEN N + 1 ELSE n, <<>>, ResizeM(M(k), n, 32), Void)
-Swap(k, ov) == Do2("Swap", k, [ov |-> ov], M(Other(k)), M(k), Void)      \* three whole-storage moves
+    Checked("Resize1", k, [n |-> n], FALSE, IF n = NPOS THEN N + 1 ELSE n, <<>>, ResizeM(M(k), n, 32), Void)
+Resize1Grows(k, n) == n # NPOS /\ n > SizeOf(M(k)) /\ n <= N
+Swap(k, ov) == IF ov \in {"memberself", "freeself"} THEN Commit("Swap", k, [ov |-> ov], M(k), Void)
+               ELSE Do2("Swap", k, [ov |-> ov], M(Other(k)), M(k), Void)      \* three whole-storage moves
 
 Substr(k, p, n) ==
     LET m == M(k)  pp == Or(p, 0)  nn == Or(n, NPOS) IN
     IF Bad(pp, SizeOf(m)) THEN Obs("Substr", k, [pos |-> p, n |-> n], Exc("out_of_range"))
-    ELSE LET r == AssignM(Fresh(0), SubOf(AbsOf(m), pp, nn)) IN
+    ELSE LET r == AssignM(Fresh(0), Foreign(SubOf(AbsOf(m), pp, nn))) IN
          ObsX("Substr", k, [pos |-> p, n |-> n], r, Ok(StrValOf(r)))
 Copy(k, n, p, dn, fill) ==
     LET m == M(k)  pp == Or(p, 0) IN
@@ -240,22 +298,23 @@ Copy(k, n, p, dn, fill) ==
 InsertFill(k, idx, n, ch) ==
     LET m == M(k) IN
     Checked("InsertFill", k, [idx |-> idx, n |-> n, ch |-> ch], Bad(idx, SizeOf(m)), SizeOf(m) + n, F(n, ch), InsertFillM(m, idx, n, ch), Self)
-InsertSeq(k, idx, sk, v) ==
-    /\ sk \in {"ptr", "ptrn", "obj", "str"} /\ SrcOK(k, sk, v)
-    /\ LET m == M(k) IN
-       Checked("InsertSeq", k, [idx |-> idx, sk |-> sk, src |-> v], Bad(idx, SizeOf(m)), SizeOf(m) + Len(v), v, InsertM(m, idx, v), Self)
-InsertSub(k, idx, sk, v, p, n) ==          \* check_index_strict(index_str, str.size()) first, then insert(index, ptr, min)
-    /\ sk \in {"obj", "str"} /\ SrcOK(k, sk, v)
-    /\ LET m == M(k)  sub == SubOf(v, p, Or(n, NPOS)) IN
-       Checked("InsertSub", k, [idx |-> idx, sk |-> sk, src |-> v, pos |-> p, n |-> n],
-               Bad(p, Len(v)) \/ Bad(idx, SizeOf(m)), SizeOf(m) + Len(sub), sub, InsertM(m, idx, sub), Self)
+InsertSeq(k, idx, sk, w) ==
+    /\ sk \in WithAlias({"ptr", "ptrn", "obj", "str"}) /\ SrcOK(k, sk, w)
+    /\ LET m == M(k)  v == Eff(k, sk, w) IN
+       Checked("InsertSeq", k, [idx |-> idx, sk |-> sk, src |-> w], Bad(idx, SizeOf(m)), SizeOf(m) + Len(v), v, InsertM(m, idx, SrcOf(k, sk, w)), Self)
+InsertSub(k, idx, sk, w, p, n) ==          \* check_index_strict(index_str, str.size()) first, then insert(index, ptr, min)
+    /\ sk \in WithAlias({"obj", "str"}) /\ SrcOK(k, sk, w)
+    /\ LET m == M(k)  v == Eff(k, sk, w)  sub == SubOf(v, p, Or(n, NPOS)) IN
+       Checked("InsertSub", k, [idx |-> idx, sk |-> sk, src |-> w, pos |-> p, n |-> n],
+               Bad(p, Len(v)) \/ Bad(idx, SizeOf(m)), SizeOf(m) + Len(sub), sub, InsertM(m, idx, SubSrcOf(k, sk, w, p, Or(n, NPOS))), Self)
 \* iterator forms: if (cbegin() <= pos && pos <= cend()) { insert(index, ...); return pos; } return end();
 InsertIt(k, ov, it, n, ch) ==
     /\ ov \in {"ch", "fill"} /\ (ov = "ch" => n = 1) /\ it \in 0..SizeOf(M(k))
     /\ Checked("InsertIt", k, [ov |-> ov, it |-> it, n |-> n, ch |-> ch], FALSE, SizeOf(M(k)) + n, F(n, ch), InsertFillM(M(k), it, n, ch), It(it))
-InsertItSeq(k, it, sk, v) ==
-    /\ sk \in {"il", "itv", "itl"} /\ it \in 0..SizeOf(M(k))
-    /\ Checked("InsertItSeq", k, [it |-> it, sk |-> sk, src |-> v], FALSE, SizeOf(M(k)) + Len(v), v, InsertM(M(k), it, v), It(it))
+InsertItSeq(k, it, sk, w) ==
+    /\ sk \in WithAlias({"il", "itv", "itl"}) /\ SrcOK(k, sk, w) /\ it \in 0..SizeOf(M(k))
+    /\ LET v == Eff(k, sk, w) IN
+       Checked("InsertItSeq", k, [it |-> it, sk |-> sk, src |-> w], FALSE, SizeOf(M(k)) + Len(v), v, InsertM(M(k), it, SrcOf(k, sk, w)), It(it))
 
 Erase(k, idx, n) ==
     LET m == M(k)  ii == Or(idx, 0)  nn == Or(n, NPOS) IN
@@ -271,32 +330,35 @@ EraseIt(k, it) ==
 
 AppendFill(k, n, ch) ==
     Checked("AppendFill", k, [n |-> n, ch |-> ch], FALSE, SizeOf(M(k)) + n, F(n, ch), AppendFillM(M(k), n, ch), Self)
-AppendSeq(k, ov, sk, v) ==
-    /\ ov \in {"append", "op"} /\ SrcOK(k, sk, v)
-    /\ sk \in (IF ov = "append" THEN {"obj", "str", "ptrn", "ptr", "il", "itv", "itl"} ELSE {"obj", "str", "ptr", "il"})
-    /\ Checked("AppendSeq", k, [ov |-> ov, sk |-> sk, src |-> v], FALSE, SizeOf(M(k)) + Len(v), v, AppendM(M(k), v), Self)
-AppendSub(k, sk, v, p, n) ==
-    /\ sk \in {"obj", "str"} /\ SrcOK(k, sk, v)
-    /\ LET sub == SubOf(v, p, Or(n, NPOS)) IN
-       Checked("AppendSub", k, [sk |-> sk, src |-> v, pos |-> p, n |-> n], Bad(p, Len(v)), SizeOf(M(k)) + Len(sub), sub, AppendM(M(k), sub), Self)
+AppendSeq(k, ov, sk, w) ==
+    /\ ov \in {"append", "op"} /\ SrcOK(k, sk, w)
+    /\ sk \in WithAlias(IF ov = "append" THEN {"obj", "str", "ptrn", "ptr", "il", "itv", "itl"} ELSE {"obj", "str", "ptr", "il"})
+    /\ LET v == Eff(k, sk, w) IN
+       Checked("AppendSeq", k, [ov |-> ov, sk |-> sk, src |-> w], FALSE, SizeOf(M(k)) + Len(v), v, AppendM(M(k), SrcOf(k, sk, w)), Self)
+AppendSub(k, sk, w, p, n) ==
+    /\ sk \in WithAlias({"obj", "str"}) /\ SrcOK(k, sk, w)
+    /\ LET v == Eff(k, sk, w)  sub == SubOf(v, p, Or(n, NPOS)) IN
+       Checked("AppendSub", k, [sk |-> sk, src |-> w, pos |-> p, n |-> n], Bad(p, Len(v)), SizeOf(M(k)) + Len(sub), sub,
+               AppendM(M(k), SubSrcOf(k, sk, w, p, Or(n, NPOS))), Self)
 
-Replace(k, p, n, sk, v) ==
-    /\ sk \in {"obj", "str", "ptrn", "ptr"} /\ SrcOK(k, sk, v)
-    /\ LET m == M(k)  sz == SizeOf(m) IN
-       Checked("Replace", k, [pos |-> p, n |-> n, sk |-> sk, src |-> v], Bad(p, sz), sz - Cnt(n, sz - p) + Len(v), v, ReplaceM(m, p, n, v), Self)
-ReplaceSub(k, p, n, sk, v, p2, n2) ==          \* the source position is checked first
-    /\ sk \in {"obj", "str"} /\ SrcOK(k, sk, v)
-    /\ LET m == M(k)  sz == SizeOf(m)  sub == SubOf(v, p2, Or(n2, NPOS)) IN
-       Checked("ReplaceSub", k, [pos |-> p, n |-> n, sk |-> sk, src |-> v, pos2 |-> p2, n2 |-> n2],
-               Bad(p2, Len(v)) \/ Bad(p, sz), sz - Cnt(n, sz - p) + Len(sub), sub, ReplaceM(m, p, n, sub), Self)
+Replace(k, p, n, sk, w) ==
+    /\ sk \in WithAlias({"obj", "str", "ptrn", "ptr"}) /\ SrcOK(k, sk, w)
+    /\ LET m == M(k)  sz == SizeOf(m)  v == Eff(k, sk, w) IN
+       Checked("Replace", k, [pos |-> p, n |-> n, sk |-> sk, src |-> w], Bad(p, sz), sz - Cnt(n, sz - p) + Len(v), v, ReplaceM(m, p, n, SrcOf(k, sk, w)), Self)
+ReplaceSub(k, p, n, sk, w, p2, n2) ==          \* the source position is checked first
+    /\ sk \in WithAlias({"obj", "str"}) /\ SrcOK(k, sk, w)
+    /\ LET m == M(k)  sz == SizeOf(m)  v == Eff(k, sk, w)  sub == SubOf(v, p2, Or(n2, NPOS)) IN
+       Checked("ReplaceSub", k, [pos |-> p, n |-> n, sk |-> sk, src |-> w, pos2 |-> p2, n2 |-> n2],
+               Bad(p2, Len(v)) \/ Bad(p, sz), sz - Cnt(n, sz - p) + Len(sub), sub, ReplaceM(m, p, n, SubSrcOf(k, sk, w, p2, Or(n2, NPOS))), Self)
 ReplaceFill(k, p, n, n2, ch) ==
     LET m == M(k)  sz == SizeOf(m) IN
     Checked("ReplaceFill", k, [pos |-> p, n |-> n, n2 |-> n2, ch |-> ch], Bad(p, sz), sz - Cnt(n, sz - p) + n2, F(n2, ch), ReplaceFillM(m, p, n, n2, ch), Self)
 \* iterator forms: if (cbegin() <= first && first <= last && last <= cend()) replace(pos, count, ...)
-ReplaceIt(k, f, l, sk, v) ==
-    /\ sk \in {"obj", "str", "ptrn", "ptr", "il", "itv", "itl"} /\ SrcOK(k, sk, v)
+ReplaceIt(k, f, l, sk, w) ==
+    /\ sk \in WithAlias({"obj", "str", "ptrn", "ptr", "il", "itv", "itl"}) /\ SrcOK(k, sk, w)
     /\ f \in 0..SizeOf(M(k)) /\ l \in f..SizeOf(M(k))
-    /\ Checked("ReplaceIt", k, [f |-> f, l |-> l, sk |-> sk, src |-> v], FALSE, SizeOf(M(k)) - (l - f) + Len(v), v, ReplaceM(M(k), f, l - f, v), Self)
+    /\ LET v == Eff(k, sk, w) IN
+       Checked("ReplaceIt", k, [f |-> f, l |-> l, sk |-> sk, src |-> w], FALSE, SizeOf(M(k)) - (l - f) + Len(v), v, ReplaceM(M(k), f, l - f, SrcOf(k, sk, w)), Self)
 ReplaceItFill(k, f, l, n2, ch) ==
     /\ f \in 0..SizeOf(M(k)) /\ l \in f..SizeOf(M(k))
     /\ Checked("ReplaceItFill", k, [f |-> f, l |-> l, n2 |-> n2, ch |-> ch], FALSE, SizeOf(M(k)) - (l - f) + n2, F(n2, ch), ReplaceFillM(M(k), f, l - f, n2, ch), Self)
@@ -307,11 +369,11 @@ CmpImpl(a, b) ==
         d == {i \in 1..rlen : a[i] # b[i]}
     IN IF d = {} THEN (IF Len(a) < Len(b) THEN -1 ELSE IF Len(a) > Len(b) THEN 1 ELSE 0)
        ELSE LET i == CHOOSE x \in d : \A y \in d : x <= y IN IF a[i] < b[i] THEN -1 ELSE 1
-Compare1(k, p1, n1, sk, v) ==
-    /\ sk \in {"obj", "str", "ptr", "ptrn"} /\ SrcOK(k, sk, v)
+Compare1(k, p1, n1, sk, w) ==
+    /\ sk \in WithAlias({"obj", "str", "ptr", "ptrn"}) /\ SrcOK(k, sk, w)
     /\ LET m == M(k)  sz == SizeOf(m) IN
-       Obs("Compare1", k, [pos1 |-> p1, n1 |-> n1, sk |-> sk, src |-> v],
-           IF Bad(p1, sz) THEN Exc("out_of_range") ELSE Ok([sign |-> CmpImpl(SubOf(AbsOf(m), p1, n1), v)]))
+       Obs("Compare1", k, [pos1 |-> p1, n1 |-> n1, sk |-> sk, src |-> w],
+           IF Bad(p1, sz) THEN Exc("out_of_range") ELSE Ok([sign |-> CmpImpl(SubOf(AbsOf(m), p1, n1), Eff(k, sk, w))]))
 
 \* the search family as written: guards first, then a scan over data()[..size())
 RECURSIVE Up(_, _, _), Down(_, _)
@@ -332,18 +394,18 @@ FindImpl(fam, s, v, p) ==
          [] fam = "flo"   -> IF 0 < c /\ 0 < sz THEN Down(In, Cap2(p, sz - 1)) ELSE NPOS
          [] fam = "flno"  -> IF 0 < sz THEN Down(NotIn, Cap2(p, sz - 1)) ELSE NPOS
 FindDefault(fam) == IF fam \in {"find", "ffo", "ffno"} THEN 0 ELSE NPOS
-Find(k, fam, sk, v, p) ==
-    /\ sk \in {"obj", "str", "ptrn", "ptr", "ch"} /\ SrcOK(k, sk, v)
-    /\ sk = "ptrn" => p # DFLT
-    /\ Obs("Find", k, [fam |-> fam, sk |-> sk, src |-> v, pos |-> p], Ok([pos |-> FindImpl(fam, AbsStr(k), v, Or(p, FindDefault(fam)))]))
+Find(k, fam, sk, w, p) ==
+    /\ sk \in WithAlias({"obj", "str", "ptrn", "ptr", "ch"}) /\ SrcOK(k, sk, w)
+    /\ sk \in {"ptrn", "selfp"} => p # DFLT
+    /\ Obs("Find", k, [fam |-> fam, sk |-> sk, src |-> w, pos |-> p], Ok([pos |-> FindImpl(fam, AbsStr(k), Eff(k, sk, w), Or(p, FindDefault(fam)))]))
 
 \* operator+(lhs, rhs): res(lhs) (whole storage copied); res += rhs
 Concat(k, lk, rk, v) ==
-    /\ <<lk, rk>> \in {<<"self", "obj">>, <<"self", "ptr">>, <<"self", "ch">>, <<"selfm", "obj">>, <<"self", "objm">>}
-    /\ NulFree(v) /\ (rk = "ch" => Len(v) = 1) /\ (rk \in ObjKinds => v = <<>>)
-    /\ LET rv == IF rk \in ObjKinds THEN AbsStr(Other(k)) ELSE v
+    /\ <<lk, rk>> \in {<<"self", "obj">>, <<"self", "ptr">>, <<"self", "ch">>, <<"selfm", "obj">>, <<"self", "objm">>, <<"self", "self">>}
+    /\ NulFree(v) /\ (rk = "ch" => Len(v) = 1) /\ (rk \in ObjKinds \cup {"self"} => v = <<>>)
+    /\ LET rv == IF rk \in ObjKinds THEN AbsStr(Other(k)) ELSE IF rk = "self" THEN AbsStr(k) ELSE v
            a  == [lk |-> lk, rk |-> rk, src |-> v]
-           r  == IF rk = "ch" THEN AppendFillM(M(k), 1, v[1]) ELSE AppendM(M(k), rv)
+           r  == IF rk = "ch" THEN AppendFillM(M(k), 1, v[1]) ELSE AppendM(M(k), Foreign(rv))      \* res is a copy of lhs: rhs never aliases it
        IN IF TooLong(SizeOf(M(k)) + Len(rv)) THEN Throwing /\ Obs("Concat", k, a, Exc("length_error"))
           ELSE ObsX("Concat", k, a, r, Ok(StrValOf(r)))
 
@@ -358,9 +420,59 @@ O(k)     == AbsStr(Other(k))
 Lit(sk)  == IF sk \in {"ptr", "str"} THEN NFLits ELSE Lits
 Srcs(k, kinds) == {<<sk, v>> \in kinds \X (Lits \cup {O(k)}) : IF sk \in ObjKinds THEN v = O(k) ELSE v \in Lit(sk)}
 
+\* ---------------------------------------------------------------- aliasing sources
+\* Which aliasing calls the code as written handles: every source cell is read before anything the call itself wrote
+\* reaches it (the terminator of the new length, the shifted tail), and traits_type::copy never gets ranges that overlap
+\* without being identical.  (vlib/fixedstring.py alias_unsafe() is the same predicate for the script generators.)
+SafeAssign(S)         == S.cnt = 0 \/ S.off = 0 \/ S.off > S.cnt
+SafeInsert(idx, S)    == S.cnt = 0 \/ (IF S.al = "mov" THEN S.off <= idx ELSE S.off + S.cnt <= idx \/ S.off = idx)
+SafeReplace(p, ec, S) == LET c2 == S.cnt IN
+    c2 = 0 \/ (IF S.al = "mov" THEN S.off <= p \/ ec >= c2
+                               ELSE S.off = p \/ S.off + c2 <= p \/ (S.off >= p + c2 /\ ec >= c2))
+\* (compared with TRUE so that TLC evaluates the gate as a value instead of splitting the action at its disjunctions)
+AGate(safe) == (AliasMode \in {"all", "repaired"} \/ (AliasMode = "safe" /\ safe)) = TRUE
+BadOr(bad, gate) == (bad \/ gate) = TRUE
+ASrcs(k, kinds) ==
+    LET n == SizeOf(M(k)) IN
+      (IF "self" \in kinds THEN {<<"self", <<>>>>} ELSE {})
+      \cup UNION {{<<sk, <<off, cnt>>>> : cnt \in 0..(n - off)} : sk \in kinds \cap {"selfp", "selfit"}, off \in 0..n}
+      \cup {<<"selfz", <<off>>>> : off \in (IF "selfz" \in kinds THEN 0..n ELSE {})}
+\* At N >= 3 the C-string form (the pointer form once its length is known) and the aliasing observers (no cell moves)
+\* are left to the N = 2 configurations: they triple the transitions without reaching other steps of the code.
+AKAll == IF N >= 3 THEN {"self", "selfp", "selfit"} ELSE AliasKinds
+AKPtr == IF N >= 3 THEN {"self", "selfp"} ELSE {"self", "selfp", "selfz"}
+NextAlias(k) ==
+    LET sz == SizeOf(M(k)) IN
+    \/ \E q \in PosDom, n \in PosD :
+         /\ BadOr(Bad(q, sz), AGate(SafeAssign(SubSrcOf(k, "self", <<>>, q, Or(n, NPOS)))))
+         /\ AssignSub(k, "self", <<>>, q, n)
+    \/ \E q \in PosDom, n \in PosD : AppendSub(k, "self", <<>>, q, n)
+    \/ \E ov \in {"assign", "op"}, x \in ASrcs(k, AKAll) :
+         \/ AGate(x[1] = "self" \/ SafeAssign(SrcOf(k, x[1], x[2]))) /\ AssignSeq(k, ov, x[1], x[2])
+         \/ AppendSeq(k, ov, x[1], x[2])
+    \/ \E idx \in PosDom, x \in ASrcs(k, AKPtr) :
+         /\ BadOr(Bad(idx, sz), AGate(SafeInsert(idx, SrcOf(k, x[1], x[2]))))
+         /\ InsertSeq(k, idx, x[1], x[2])
+    \/ \E idx \in PosDom, q \in SubDom :
+         /\ BadOr(Bad(idx, sz) \/ Bad(q[1], sz), AGate(SafeInsert(idx, SubSrcOf(k, "self", <<>>, q[1], Or(q[2], NPOS)))))
+         /\ InsertSub(k, idx, "self", <<>>, q[1], q[2])
+    \/ \E it \in Its(k), x \in ASrcs(k, {"selfit"}) : AGate(SafeInsert(it, SrcOf(k, x[1], x[2]))) /\ InsertItSeq(k, it, x[1], x[2])
+    \/ \E q \in PosDom, n \in PosDom, x \in ASrcs(k, AKPtr) :
+         \/ N < 3 /\ Compare1(k, q, n, x[1], x[2])
+         \/ /\ BadOr(Bad(q, sz), AGate(SafeReplace(q, Cnt(n, sz - q), SrcOf(k, x[1], x[2]))))
+            /\ Replace(k, q, n, x[1], x[2])
+    \/ \E q \in PosDom, n \in PosDom, q2 \in SubDom :
+         /\ BadOr(Bad(q, sz) \/ Bad(q2[1], sz), AGate(SafeReplace(q, Cnt(n, sz - q), SubSrcOf(k, "self", <<>>, q2[1], Or(q2[2], NPOS)))))
+         /\ ReplaceSub(k, q, n, "self", <<>>, q2[1], q2[2])
+    \/ \E r \in Ranges(k), x \in ASrcs(k, AKAll) :
+         /\ AGate(SafeReplace(r[1], r[2] - r[1], SrcOf(k, x[1], x[2])))
+         /\ ReplaceIt(k, r[1], r[2], x[1], x[2])
+    \/ N < 3 /\ \E fam \in {"find", "rfind", "ffo", "ffno", "flo", "flno"}, q \in PosD, x \in ASrcs(k, {"self", "selfp", "selfz"}) : Find(k, fam, x[1], x[2], q)
+    \/ Concat(k, "self", "self", <<>>) \/ Swap(k, "memberself")
+
 Init ==
     /\ cfv \in [policy : Policies, layout : Layouts]
-    /\ \E v \in OtherVals : Storable(v) /\ LET m2 == AssignM(Fresh(0), v) IN mem = <<[b |-> Fresh(0).b, z |-> 0], [b |-> m2.b, z |-> m2.z]>>
+    /\ \E v \in OtherVals : Storable(v) /\ LET m2 == AssignM(Fresh(0), Foreign(v)) IN mem = <<[b |-> Fresh(0).b, z |-> 0], [b |-> m2.b, z |-> m2.z]>>
     /\ oob = FALSE
     /\ last = [op |-> "Init", k |-> 0, a |-> NoArg, res |-> Void]
     /\ pre = [obj |-> <<<<>>, <<>>>>]
@@ -377,7 +489,7 @@ NextK(k) ==
     \/ \E c \in {0, 1}, i \in PosDom : At(k, c, i) \/ Index(k, c, i)
     \/ \E i \in Nats, ch \in Chars : Write(k, "index", i, ch)
     \/ Clear(k) \/ PopBack(k) \/ (\E ov \in {"push_back", "opch"}, ch \in Chars : PushBack(k, ov, ch))
-    \/ \E n \in PosDom : Resize1(k, n) \/ (\E ch \in Chars : Resize2(k, n, ch))
+    \/ \E n \in PosDom : (~Resize1Grows(k, n) /\ Resize1(k, n)) \/ (\E ch \in Chars : Resize2(k, n, ch))
     \/ Swap(k, "member")
     \/ \E p \in PosD, n \in PosD : Substr(k, p, n) \/ Erase(k, p, n)
     \/ \E p \in PosD, n \in PosDom : LET pp == Or(p, 0)  sz == SizeOf(M(k)) IN Copy(k, n, p, IF Bad(pp, sz) THEN 0 ELSE Cnt(n, sz - pp) + 1, 126)
@@ -400,7 +512,7 @@ NextK(k) ==
     \/ Concat(k, "self", "obj", <<>>) \/ Concat(k, "selfm", "obj", <<>>) \/ Concat(k, "self", "objm", <<>>)
     \/ \E v \in NFLits : Concat(k, "self", "ptr", v) \/ (Len(v) = 1 /\ Concat(k, "self", "ch", v))
 
-Next == NextK(1)
+Next == NextK(1) \/ (AliasMode # "none" /\ NextAlias(1))
 Spec == Init /\ [][Next]_ivars
 absview == <<cfv, mem, oob>>
 \* the second object is a source only: keep it at its initial values (swap / whole-storage copies would spread it)
